@@ -3,6 +3,7 @@
 From Coq Require Import ZArith List Bool.
 From PV Require Import Model.Base Model.Sched Model.Seq.
 From PV Require Gen.PureLoops Gen.PureSlot Proofs.PureLoopsEq Proofs.PureSlotEq.
+From PV Require Proofs.SourceTie.
 From PV Require Import Proofs.SchedInv Proofs.DurationSpec Proofs.ConflictSpec Proofs.AlignWitness.
 Import ListNotations.
 Open Scope Z_scope.
@@ -133,3 +134,10 @@ Theorem C03_source_make_next_pulse_slot :
              (negb (negb (proto =? 1))) (proto =? 2) dp (p_phase p) (p_dur p) (en_max e) block)).
 Proof. exact PureSlotEq.make_next_pulse_slot_eq. Qed.
 Print Assumptions C03_source_make_next_pulse_slot.
+
+(** The whole translation tie of the scheduler (see Proofs/SourceTie.v): every
+    scheduler function of the model this property's theorems rest on is equal to
+    the function regenerated from the current source. *)
+Theorem C03_source_scheduler : SourceTie.scheduler_tied.
+Proof. exact SourceTie.scheduler_source_tie. Qed.
+Print Assumptions C03_source_scheduler.
